@@ -272,7 +272,8 @@ impl RustRuleEngine {
 
     /// Activate agenda group
     pub fn activate_agenda_group(&mut self, group: String) {
-        self.workflow_engine.activate_agenda_group(group.clone());
+        // The focus is set right here; queueing the same activation in the workflow engine as well
+        // would apply it a second time at the next sync point.
         self.agenda_manager.set_focus(&group);
     }
 
@@ -1280,8 +1281,9 @@ impl RustRuleEngine {
                 if self.config.debug_mode {
                     println!("  🎯 Activating agenda group: {}", group);
                 }
-                // Sync with both workflow engine and agenda manager immediately
-                self.workflow_engine.activate_agenda_group(group.clone());
+                // Activate immediately. The activation must not also be queued in the workflow
+                // engine: the queue is drained into set_focus at the end of the cycle, which would
+                // activate the group a second time and reset its lock-on-active tracking.
                 self.agenda_manager.set_focus(group);
             }
             ActionType::ScheduleRule {
